@@ -36,6 +36,14 @@ CLAIMED = {
             "Seeded search over local actions x peer behaviours x times: a real client connection and a real listener connection each face a scripted peer that opens at once, late or pipelined, closes with or without error at a seeded moment, sends frames that are illegal in the current state (begin with unknown remote-channel, end/attach on an unmapped channel, second open, a begin before the open), floods empty frames, goes silent, or cuts the stream, while the application closes, closes with error, drops the handle, begins and ends a session or just waits, with and without idle time-outs (heartbeats). The connection state machine is checked on the bytes the endpoint wrote - header first, open first and once, at most one close, nothing after it, peer close answered, illegal frame answered by a close that carries an error and not acted upon - and on the API results (clean close => Ok when the endpoint closed first / RemoteClosed when the peer did; peer's error reported).",
             "Trusted: the simulator, refcodec. With a silent peer API calls may stay pending (no clause bounds them). The flush-before-close clause is exercised by C13's queued-frame workloads.",
             "connection state machine reference model on the written bytes + API result model against a scripted peer", "3 C12"),
+    "C13": ("exploration",
+            "Seeded search over lifecycle sequences on a real client/listener pair: 1-3 concurrent sessions, each with 1-4 link lifetimes (sender or receiver, 0-4 single- or multi-frame messages) torn down by close, non-closing detach, close_with_error, drop of the handle, or by the peer closing first; names re-used after an awaited teardown, duplicate-name attempts, and session teardown by end, end_with_error or drop. Wire models: one begin, at most one end and nothing on the channel afterwards; one attach, at most one detach per attach and nothing for the handle afterwards; frames only for attached handles. API oracles: every teardown call returns, returns Ok only after the peer's answer is on the wire, detaches are answered in kind, the error carried by a detach reaches the peer application, what the application had handed over before the teardown reaches the peer, sibling sessions and the connection survive (final close is clean).",
+            "Trusted: the simulator, refcodec. Configurations of C01's circular-wait finding are excluded. Peer refusals and unsolicited teardown by a scripted peer are exercised by C14's peer-initiated variants.",
+            "per-channel / per-handle lifecycle reference models on the wire + API result model over a real pair", "3 C13"),
+    "C11": ("exploration",
+            "The lifecycle workload of C13 (sessions x link lifetimes x teardown kinds, names re-used after detach, duplicate names, concurrent sessions, deliveries split by both splitting layers) judged on identifiers and routing: delivery-ids strictly increasing per session and equal-or-absent on continuation frames (wire model), no two attached links of a session share a handle, no two live sessions a channel, a name attached at most once per session and a refused duplicate writes nothing, handles/channels re-used only after detach/end (wire models), and every message - which carries (link, generation, sequence) - comes out of the receiving link that the handle designates, in order.",
+            "Trusted: the simulator, refcodec. Peers that pick sparse, large or crosswise handle and channel numbers are exercised by the scripted scenarios of C07-C10 (peer handles 9, 1000, 4000, 90000; channels 3, 200).",
+            "identifier and routing reference models on the wire + tagged-message routing over a real pair", "3 C11"),
 }
 
 NOT_APPLICABLE = {
